@@ -267,8 +267,11 @@ def run_shard(item):
                 out["tables"]["rewrites"][kind] = out["tables"]["rewrites"].get(kind, 0) + 1
             big = len(model.types) > 12 or sum(len(t.fields) for t in model.types) > 60
             # every way x extend for small models and for the seeds; the big ones (K, W) rotate through the ways
-            if not trail or not big:
+            if not trail:
                 ways = [(w, e) for w in WAYS for e in (False, True)]
+            elif not big:
+                ways = [("string", False), ("file", True), ("files", False), ("directory", True)] if tier == "quick" \
+                    else [(w, e) for w in WAYS for e in (False, True)]
             else:
                 idx = out["counts"]["transitions"] % 4
                 ways = [(WAYS[idx], idx % 2 == 0), ("string", idx % 2 == 1)]
